@@ -108,9 +108,13 @@ Definition Line_Nq (e:Vec4 T) (u:Vec2 T) : Vec4 T := Ball_Nq e (m33_mulv K (quat
 Definition Line_Ne (a:Vec3 T) (u:Vec2 T) : Vec3 T := m33_mulv K (cNB_q K a) (up3 u).
 Definition Line_NInvq (e:Vec4 T) (ed:Vec4 T) : Vec2 T := dn2 (m33_Tmulv K (quatR e) (Ball_NInvq e ed)).
 Definition Line_NInve (a:Vec3 T) (ad:Vec3 T) : Vec2 T := dn2 (m33_mulv K (cNInvB_q K a) ad).
-(** the derivative of N applied to the current speeds (as the implementation's multiplyByNDot computes it:
-    NDotQ(qdot) R_FM; the term N(q) d/dt(R_FM) vanishes on the current u only) *)
-Definition Line_NDotq_impl (e ed:Vec4 T) (v:Vec2 T) : Vec4 T := Ball_NDotq ed (m33_mulv K (quatR e) (up3 v)).
+(** NDot for quaternion coordinates: N(q) = N_Q(q) R_FM(q) P depends on q also through R_FM, so along the motion with
+    speeds u:  NDot v = N_Q(qdot) R (v,0) + N_Q(q) R ((u,0) x (v,0))   (RigidBodyNodeSpec_LineOrientation.h after a24f10ba) *)
+Definition Line_NDotq (e ed:Vec4 T) (u v:Vec2 T) : Vec4 T :=
+  v4_add K (Ball_NDotq ed (m33_mulv K (quatR e) (up3 v)))
+           (Ball_Nq e (m33_mulv K (quatR e) (v3_cross K (up3 u) (up3 v)))).
+(** the expression used before fix a24f10ba (N_Q(qdot) R only); kept for the regression lemmas of C03_Proofs.v *)
+Definition Line_NDotq_prefix (e ed:Vec4 T) (v:Vec2 T) : Vec4 T := Ball_NDotq ed (m33_mulv K (quatR e) (up3 v)).
 Definition Line_NDote (a ad:Vec3 T) (v:Vec2 T) : Vec3 T := m33_mulv K (cNDotB_q K a ad) (up3 v).
 
 (** *** SphericalCoords: azimuth = s0*q0+az0 about Fz, zenith = s1*q1+ze0 about My, radius s2*q2 along Mz (or Mx) *)
@@ -203,12 +207,25 @@ Definition Universal_fitW (q:Vec2 T) (V:SV) : Vec2 T :=
 (** BendStretch velocity fit (translation q1 <> 0) *)
 Definition BendStretch_fitV (q:Vec2 T) (V:SV) : Vec2 T :=
   let vM := m33_Tmulv K (RotZ (fst q)) (snd V) in (v3_1 vM / snd q, v3_0 vM).
-(** BendStretch translation fit (d >= 4 eps branch): q0 = atan2(p_y,p_x), q1 = |p_xy|; it runs after the rotation fit *)
-Definition BendStretch_fitT (p:Vec3 T) : Vec2 T :=
+(** pi as the implementation has it available to the model: atan2(0,-1) *)
+Definition npi : T := natan2 K (n0 K) (nopp K (n1 K)).
+(** BendStretch translation fit (d >= 4 eps branch) after fix c1dcbf40: (angle,d) and (angle+pi,-d) give the same
+    translation; the one whose angle is closer to the current angle [cur] is used *)
+Definition BendStretch_fitT (cur:T) (p:Vec3 T) : Vec2 T :=
+  let angle := natan2 K (v3_1 p) (v3_0 p) in
+  let d := nsqrt K (v3_0 p * v3_0 p + v3_1 p * v3_1 p) in
+  if nleb K 0 (ncos K (angle - cur)) then (angle, d)
+  else (if nltb K 0 angle then angle - npi else angle + npi, - d).
+(** setQToFitTransform: rotation fit first (angle about z), then the translation fit *)
+Definition BendStretch_fitX (X:Transform T) : Vec2 T := BendStretch_fitT (zangle (fst X)) (snd X).
+(** the translation fit before fix c1dcbf40; kept for the regression lemma *)
+Definition BendStretch_fitT_prefix (p:Vec3 T) : Vec2 T :=
   (natan2 K (v3_1 p) (v3_0 p), nsqrt K (v3_0 p * v3_0 p + v3_1 p * v3_1 p)).
-(** Ellipsoid velocity fit: the angular fit u = w, then the linear fit (written for a sphere) overwrites the x,y
-    components of w expressed in M from the linear velocity *)
-Definition Ell_fitV (r:Vec3 T) (R:Mat33 T) (V:SV) : Vec3 T :=
+(** Ellipsoid (after fix 7c1ce7f5): a transform / spatial velocity is fitted by its rotation / angular velocity *)
+Definition Ell_fitU (V:SV) : Vec3 T := fst V.
+(** the velocity fit before fix 7c1ce7f5: the angular fit u = w overwritten by a linear fit written for a sphere;
+    kept for the regression lemmas *)
+Definition Ell_fitV_prefix (r:Vec3 T) (R:Mat33 T) (V:SV) : Vec3 T :=
   let p := Ell_p r R in
   let vM := m33_Tmulv K R (snd V) in let rM := m33_Tmulv K R p in let wM := m33_Tmulv K R (fst V) in
   m33_mulv K R (- (v3_1 vM) / v3_2 rM, v3_0 vM / v3_2 rM, v3_2 wM).
@@ -300,14 +317,14 @@ Definition mob_NInv (m:mspec) (q qd:list T) : list T :=
   | MFreeLine => (if usesQuat m then of2 (Line_NInvq K (l4 q) (l4 qd)) else of2 (Line_NInve K (l3 q 0) (l3 qd 0))) ++ of3 (l3 qd (nrot m))
   | _ => qd
   end.
-(** NDot(q,qdot) v, as multiplyByNDot reports it *)
+(** NDot(q,u) v with qdot = N(q) u, as multiplyByNDot reports it *)
 Definition zeros (n:nat) : list T := repeat 0 n.
-Definition mob_NDot (m:mspec) (q qd v:list T) : list T :=
+Definition mob_NDot (m:mspec) (q u qd v:list T) : list T :=
   match m_type m with
   | MBall | MEllipsoid => if usesQuat m then of4 (Ball_NDotq K (l4 qd) (l3 v 0)) else of3 (Ball_NDote K (l3 q 0) (l3 qd 0) (l3 v 0))
   | MFree => (if usesQuat m then of4 (Ball_NDotq K (l4 qd) (l3 v 0)) else of3 (Ball_NDote K (l3 q 0) (l3 qd 0) (l3 v 0))) ++ zeros 3
-  | MLineOrientation => if usesQuat m then of4 (Line_NDotq_impl K (l4 q) (l4 qd) (nth0 v 0, nth0 v 1)) else of3 (Line_NDote K (l3 q 0) (l3 qd 0) (nth0 v 0, nth0 v 1))
-  | MFreeLine => (if usesQuat m then of4 (Line_NDotq_impl K (l4 q) (l4 qd) (nth0 v 0, nth0 v 1)) else of3 (Line_NDote K (l3 q 0) (l3 qd 0) (nth0 v 0, nth0 v 1))) ++ zeros 3
+  | MLineOrientation => if usesQuat m then of4 (Line_NDotq K (l4 q) (l4 qd) (nth0 u 0, nth0 u 1) (nth0 v 0, nth0 v 1)) else of3 (Line_NDote K (l3 q 0) (l3 qd 0) (nth0 v 0, nth0 v 1))
+  | MFreeLine => (if usesQuat m then of4 (Line_NDotq K (l4 q) (l4 qd) (nth0 u 0, nth0 u 1) (nth0 v 0, nth0 v 1)) else of3 (Line_NDote K (l3 q 0) (l3 qd 0) (nth0 v 0, nth0 v 1))) ++ zeros 3
   | _ => map (fun _ => 0) v
   end.
 (** reported (F on the parent, M on the child) transform, hinge columns and cross-joint velocity *)
@@ -328,8 +345,8 @@ Definition mob_fitQ (m:mspec) (X:Transform T) : option (list T) :=
   | MCylinder => Some (of2 (Cylinder_fitX K X))
   | MGimbal => Some (of3 (xyz_angles K (fst X)))
   | MBushing => Some (of3 (xyz_angles K (fst X)) ++ of3 (snd X))
-  | MBendStretch => Some (of2 (BendStretch_fitT K (snd X)))
-  | MBall | MLineOrientation => Some (rotfit m (fst X))
+  | MBendStretch => Some (of2 (BendStretch_fitX K X))
+  | MBall | MLineOrientation | MEllipsoid => Some (rotfit m (fst X))
   | MFree | MFreeLine => Some (rotfit m (fst X) ++ of3 (snd X))
   | _ => None
   end.
@@ -351,6 +368,6 @@ Definition mob_fitU (m:mspec) (q:list T) (V:SpatialVec T) : option (list T) :=
   | MLineOrientation => Some (of2 (Line_fitW K (ballR m q) V))
   | MFreeLine => Some (of2 (Line_fitW K (ballR m q) V) ++ of3 (snd V))
   | MSphericalCoords => Some (of3 (Sph_fitV K (sc_of (m_par m)) (l3 q 0) V))
-  | MEllipsoid => Some (of3 (Ell_fitV K (l3 (m_par m) 0) (ballR m q) V))
+  | MEllipsoid => Some (of3 (Ell_fitU V))
   end.
 End Disp.
